@@ -255,6 +255,7 @@ Definition site_safe (s : site) : bool :=
 
 (* the finding a payload p outside slot_guard (resp. slot_verbatim) of this site belongs to; empty = none *)
 Definition site_finding (s : site) (p : str) : string :=
+  if negb (site_safe s) then EmptyString else     (* an unacceptable site explains nothing: every failure there is a violation *)
   if negb (no_nul p) && negb (ident_san (s_san s)) then "nul_char"%string else
   if negb (no_linesep p) && negb (ident_san (s_san s)) && negb (match s_ctx s with CDoc => true | _ => false end) then "linesep_newline"%string else
   match site_class (s_ctx s) (s_san s) with
